@@ -91,18 +91,24 @@ USERDICT_VIA_SETITEM = {"update", "setdefault", "__init__", "copy"}
 def load_definitions(repo):
     cache = {}
 
-    registry = set(KNOWN_FEATS)     # the (mutable) feature registry
+    class Registry(list):
+        """the (mutable) feature registry: feat_const.scalar_feature_names"""
 
-    def feat_stub():
-        def scalar_feature_exists(name):
-            return isinstance(name, str) and name in registry
+        def add(self, f):
+            if f not in self:
+                self.append(f)
 
-        def get_feature_label(name, rtdc_ds=None, with_unit=True):
-            return f"label({name})"
-        return Namespace("feat_logic",
-                         scalar_feature_exists=scalar_feature_exists,
-                         feature_exists=scalar_feature_exists,
-                         get_feature_label=get_feature_label)
+        def discard(self, f):
+            while f in self:
+                self.remove(f)
+    registry = Registry(sorted(KNOWN_FEATS))
+
+    def feat_const_stub():
+        return Namespace(
+            "feat_const", scalar_feature_names=registry,
+            feature_names=registry, feature_labels=[],
+            feature_name2label={}, FEATURES_SCALAR=[],
+            FEATURES_NON_SCALAR=[], FLUOR_TRACES=[])
 
     def importer(mod, level, name):
         if level == 0:
@@ -112,6 +118,10 @@ def load_definitions(repo):
                 val = NP
             elif mod == "copy":
                 val = Namespace("copy", deepcopy=_copy.deepcopy)
+            elif mod == "re":
+                import re
+                val = Namespace("re", compile=re.compile, match=re.match,
+                                fullmatch=re.fullmatch, search=re.search)
             elif mod == "functools":
                 import functools
                 val = Namespace("functools", lru_cache=functools.lru_cache,
@@ -123,8 +133,8 @@ def load_definitions(repo):
             return val if name is None else getattr(val, name)
         if level != 1:
             raise AnalysisError(f"model: relative import level {level}")
-        if mod == "feat_logic":
-            ns = feat_stub()
+        if mod == "feat_const":
+            ns = feat_const_stub()
         else:
             ns = get_module(mod)
         if name is None:
@@ -146,6 +156,7 @@ def load_definitions(repo):
     mc = get_module("meta_const")
     ml = get_module("meta_logic")
     ml.__dict__["_registry"] = registry
+    ml.__dict__["_feat_logic"] = get_module("feat_logic")
     return mp, mc, ml
 
 
@@ -258,6 +269,47 @@ def _py_equal(a, b):
         return float(a) == float(b)
     except (TypeError, ValueError):
         return False
+
+
+def _flat(v):
+    """flattened numbers of a (nested) value, None if not numeric"""
+    if isinstance(v, (list, tuple, NdArray)):
+        out = []
+        try:
+            items = list(v) if not (isinstance(v, NdArray)
+                                    and v.ndim == 0) else [v.item()]
+        except TypeError:
+            return None
+        for x in items:
+            f = _flat(x)
+            if f is None:
+                return None
+            out += f
+        return out
+    if isinstance(v, (str, bytes)) or v is None:
+        return None
+    try:
+        return [float(v)]
+    except (TypeError, ValueError):
+        return None
+
+
+def _denoted(x):
+    """the numbers an input denotes: a number itself, the numbers written
+    in a text (separated by , blank [ ] ( )), the elements of a sequence"""
+    import re
+    if isinstance(x, bytes):
+        try:
+            x = x.decode("ascii")
+        except UnicodeDecodeError:
+            return None
+    if isinstance(x, str):
+        parts = [p for p in re.split(r"[,\s\[\]()]+", x) if p]
+        try:
+            return [float(p) for p in parts]
+        except ValueError:
+            return None
+    return _flat(x)
 
 
 def run_conv(conv, x):
@@ -390,6 +442,41 @@ def r115(ctx, repo, mp, mc, ml, storable):
                        f"declared type {t_name(t)}", node=node,
                        key=f"{MP}::{name}::accepts some {t_name(t)}")
     ctx.stat("R11.5 converter evaluations", n_eval)
+    # foreign representations: a numeric converter returns the value the
+    # input denotes or raises - it never takes a scalar text apart or
+    # accepts a sequence of the wrong shape
+    table = ["25", "7", "2.5", b"25", 25, 2.5, NpFloat(2.5), "1,2",
+             "[1, 2]", "(3.0, 4.0)", [1, 2, 3], (1.0, 2.0), [5.0],
+             [[1, 2], [3, 4]], "ab", ""]
+    n_for = 0
+    for conv in convs:
+        name = conv_name(conv)
+        decl = declared_types(conv, func_types)
+        if decl is None or bool in decl or NpBool in decl or str in decl:
+            continue    # switches / texts: no numeric denotation
+        node = repo.func(MP, name, missing_ok=True) or repo.module_assign(
+            MP, "func_types")
+        bad = []
+        for x in table:
+            n_for += 1
+            st, y = run_conv(conv, x)
+            if st != "ok":
+                continue
+            want = _denoted(x)
+            got = _flat(y)
+            if isinstance(y, numbers.Integral) or name == "fintlist":
+                want = None if want is None else [float(int(w))
+                                                  for w in want]
+            if got is None or want is None or got != want:
+                bad.append(f"{name}({x!r}) -> {y!r}")
+        ctx.ob("R11.5", not bad,
+               f"{name}: every foreign representation is converted to the "
+               f"number(s) it denotes or refused ({len(table)} inputs)"
+               if not bad else
+               f"{name} neither refuses nor keeps the denoted value: "
+               + "; ".join(bad[:3]), node=node,
+               key=f"{MP}::{name}::foreign representations")
+    ctx.stat("R11.5 foreign representation evaluations", n_for)
 
 
 # ----------------------------------------------------------------------
@@ -847,6 +934,50 @@ def r112(ctx, repo, mp, mc, ml, setitem):
                    "agree" if not problems else
                    f"[online_filter] '{key}': " + "; ".join(problems),
                    node=fnode, key=f"{ML}::online_filter::{key}")
+    # pattern-defined feature names (ml_score_??? with exactly three
+    # characters of [0-9a-z]) as seen by the key predicates: the interpreted
+    # feat_logic on a table of names, each position valid / invalid
+    fl = ml.__dict__["_feat_logic"]
+    FLG = "dclab/definitions/feat_logic.py"
+    flnode = repo.func(FLG, "feature_exists")
+    for pred in ("feature_exists", "scalar_feature_exists"):
+        fn = getattr(fl, pred, None)
+        if not callable(fn):
+            raise AnalysisError(f"{FLG}: {pred} vanished")
+        bad = []
+        table = [("ml_score_abc", True), ("ml_score_0z9", True),
+                 ("ml_score_-bc", False), ("ml_score_a-c", False),
+                 ("ml_score_ab-", False), ("ml_score_ab_", False),
+                 ("ml_score_Abc", False), ("ml_score_aBc", False),
+                 ("ml_score_abC", False), ("ml_score_ab", False),
+                 ("ml_score_abcd", False), ("xml_score_abc", False),
+                 ("ml_score_ab.", False), ("area_um", True),
+                 ("area_umx", False), ("", False)]
+        for nm, want in table:
+            try:
+                got = bool(fn(nm))
+            except ModelRaise as e:
+                got = f"raises {e.name}"
+            if got != want:
+                bad.append(f"{pred}({nm!r}) is {got}, expected {want}")
+        ctx.ob("R11.2", not bad,
+               f"{pred} accepts exactly the registered names and "
+               f"ml_score_ + 3 x [0-9a-z] ({len(table)} names)" if not bad
+               else f"{FLG}: " + "; ".join(bad[:3]) + " (configuration keys "
+               "of features that do not exist are accepted / existing ones "
+               "rejected)", node=flnode,
+               key=f"{FLG}::{pred}::name table")
+    for key, want in (("ml_score_abc min", True), ("ml_score_ab- min", False),
+                      ("ml_score_ab_ soft limit", False),
+                      ("ml_score_abc,ml_score_ab. polygon points", False)):
+        got = bool(ml.config_key_exists("online_filter", key))
+        ctx.ob("R11.2", got == want,
+               f"config_key_exists('online_filter', {key!r}) is {want}"
+               if got == want else
+               f"config_key_exists('online_filter', {key!r}) is {got}, "
+               f"expected {want}", node=repo.func(ML, "config_key_exists"),
+               key=f"{ML}::config_key_exists::{key}")
+
     # the key predicates follow the feature registry (plugin / temporary
     # features are registered and removed at run time): no memo of results
     reg = ml.__dict__["_registry"]
@@ -2918,4 +3049,37 @@ TWINS = list(TWINS) + [
        "            ctx = h5py.File(h5path, mode=\"r\")\n"
        "        with ctx as fh5:\n"
        "            h5attrs = dict(fh5.attrs)\n")]),
+]
+
+# round-5 seeded changes (value-level slips)
+FLG = "dclab/definitions/feat_logic.py"
+MUTANTS = list(MUTANTS) + [
+    ("duple guard lets zero-dimensional inputs through", MP,
+     ("    if np.array(value).ndim != 1:", "    if np.array(value).ndim > 1:"),
+     "R11.5"),
+    ("duple takes the first two of a longer sequence", MP,
+     ("    value = tuple(float(i) for i in value)\n"
+      "    if len(value) != 2:",
+      "    value = tuple(float(i) for i in value)[:2]\n"
+      "    if len(value) != 2:"), "R11.5"),
+    ("last character of ml_score names unchecked", FLG,
+     ("            and name[-3] in valid_chars\n"
+      "            and name[-2] in valid_chars\n"
+      "                and name[-1] in valid_chars):",
+      "                and all(ch in valid_chars for ch in name[-3:-1])):"),
+     "R11.2"),
+    ("ml_score names with upper-case characters", FLG,
+     ('        valid_chars = "0123456789abcdefghijklmnopqrstuvwxyz"',
+      '        valid_chars = "0123456789abcdefghijklmnopqrstuvwxyz"\n'
+      '        name = name.lower()'), "R11.2"),
+]
+TWINS = list(TWINS) + [
+    ("ml_score characters checked with all() over the last three", FLG,
+     ("            and name[-3] in valid_chars\n"
+      "            and name[-2] in valid_chars\n"
+      "                and name[-1] in valid_chars):",
+      "                and all(ch in valid_chars for ch in name[-3:])):")),
+    ("duple guard written as two tests", MP,
+     ("    if np.array(value).ndim != 1:",
+      "    if np.array(value).ndim < 1 or np.array(value).ndim > 1:")),
 ]
